@@ -11,6 +11,7 @@ def check(F, rep):
     run = get_fn(F, rep, ST + "::run")
     # the spawned coroutine and its guard upvar
     body = None
+    done_upvars = []
     guard_upvars = []
     for b, i, s in run.stmts():
         if s["k"] == "a" and s["rv"]["k"] == "agg" and s["rv"]["ak"] in ("coroutine", "closure"):
@@ -20,13 +21,16 @@ def check(F, rep):
             gu = [name for o, name in zip(s["rv"]["ops"], g.upvars) if op_base(o) is not None and "OwnedMutexGuard" in run.locals[op_base(o)]]
             if gu:
                 body, guard_upvars = g, gu
+                # which captured value is (a clone of) self.run_done, whatever the local is called
+                done_upvars = [name for o, name in zip(s["rv"]["ops"], g.upvars) if op_base(o) is not None and any(len(x) == 3 and tuple(x[2])[-1:] == ("run_done",) for x in copy_sources(run, op_base(o)))]
     if body is None:
         rep.missing("anchor", "spawned task of DirectAddrUpdateState::run capturing the OwnedMutexGuard")
         return
     rep.fn(body)
     sp = find_calls(run, regex=r"^tokio::task::spawn::spawn$|^n0_future::task::spawn$|task::spawn$")
     rep.floor("release-before-signal", "task::spawn calls in run", len(sp), 1)
-    sends = [(b, t) for b, t in find_calls(body, regex=r"mpsc::bounded::Sender::send$") if recv_field(body, t["args"][0]) == "run_done" or any(x[2][-1:] == ("run_done",) for x in copy_sources(body, op_base(t["args"][0])) if len(x) == 3)]
+    names = set(done_upvars) | {"run_done"}
+    sends = [(b, t) for b, t in find_calls(body, regex=r"mpsc::bounded::Sender::send$") if recv_field(body, t["args"][0]) in names or any(x[2][-1:] and x[2][-1] in names for x in copy_sources(body, op_base(t["args"][0])) if len(x) == 3)]
     rep.exact("release-before-signal", "run_done.send(..) in the spawned task", len(sends), 1)
     if not sends:
         return
